@@ -324,7 +324,7 @@ func exhaustive(emit func(proto.Case)) {
 			for _, mx := range []int64{1, 2} {
 				run(tp, mx, []string{"req", "early"}, short)
 			}
-		} else {
+		} else if ti < 9 {
 			run(tp, 1, []string{"req"}, short)
 		}
 	}
